@@ -1,0 +1,28 @@
+//go:build verif
+
+package cmp
+
+// Machine-checked contracts for this package (comment-only; excluded from normal builds).
+// The tolerance comparers are closures; each is verified as the function FloatValueApprox$1, ... with its captured
+// variables (fraction, margin, d, p) universally quantified.
+
+//@ property C16
+//@ callback Value: pure
+//@ callback Message: pure
+//@
+//@ // ---- float tolerance ----
+//@ pure func approx(fraction, margin, fx, fy) = fx == fy || abs(fx - fy) <= max(margin, fraction * min(abs(fx), abs(fy)))
+//@ pure func isFloatKind(fd) = fd.Kind() == protoreflect.FloatKind || fd.Kind() == protoreflect.DoubleKind
+//@
+//@ func FloatValueApprox$1(fd, x, y) (equal, ok)
+//@   requires fd != nil && isFin(fraction) && isFin(margin) && fraction >= 0 && margin >= 0
+//@   ensures [own-kind] ok == isFloatKind(fd)
+//@   ensures [region] ok ==> equal == approx(fraction, margin, x.Float(), y.Float())
+//@   ensures [reflexive] ok && x.Float() == y.Float() ==> equal
+//@   modifies nothing
+//@   replay FloatApprox(isNaN(x.Float()), isInf(x.Float()))
+//@
+//@ lemma approxSymmetric(fraction float64, margin float64, fx float64, fy float64)
+//@   ensures approx(fraction, margin, fx, fy) == approx(fraction, margin, fy, fx)
+//@ lemma approxReflexive(fraction float64, margin float64, fx float64)
+//@   ensures approx(fraction, margin, fx, fx)
